@@ -88,8 +88,8 @@ const O_SKIPPED: u8 = 8;
 const ONAMES: [&str; 9] = ["none", "ok", "err", "panic", "abort", "signal", "timeout", "oom", "skipped"];
 
 const HDR: usize = 64;
-const CASE_TIMEOUT_MS: u64 = 10_000;
-const CASE_BLOCKED_MS: u64 = 120_000;
+const CASE_TIMEOUT_MS: u64 = 60_000;
+const CASE_BLOCKED_MS: u64 = 300_000;
 const AS_LIMIT_MB: u64 = 1024;
 const CHILD_CHUNK: usize = 400_000; // a child is recycled after this many cases
 const LIVE_LIMIT: usize = 256 << 20; // ... or when the parsers have leaked this much
